@@ -455,6 +455,13 @@ func runC16(args []string) int {
 		}
 		add(ri, &swJob{op: "ScalarMul", complete: true, P: nil, Q: Q, s1: cscal["random"], want: nil, expectOK: true, class: "complete P=inf"})
 		add(ri, &swJob{op: "ScalarMulBase", P: P, Q: Q, s1: scal["random"], want: wc.mul(wc.g, scal["random"]), expectOK: true, class: "s=random"})
+		if ri == 1 || o.Thorough() { // [s1]P = [s2]G: the two partial results of the joint multiplication coincide
+			dd := new(big.Int).Add(rng.Big(new(big.Int).Sub(wc.n, big.NewInt(3))), big.NewInt(2))
+			Pd := wc.mul(wc.g, dd)
+			sa := new(big.Int).Add(rng.Big(new(big.Int).Sub(wc.n, big.NewInt(3))), big.NewInt(2))
+			sb := new(big.Int).Mod(new(big.Int).Mul(sa, dd), wc.n)
+			add(ri, &swJob{op: "JointScalarMulBase", P: Pd, Q: Q, s1: sa, s2: sb, want: wc.add(wc.mul(Pd, sa), wc.mul(wc.g, sb)), expectOK: true, class: "[s1]P = [s2]G"})
+		}
 		if ri < 2 || o.Thorough() {
 			add(ri, &swJob{op: "ScalarMulBase", complete: true, P: P, Q: Q, s1: big.NewInt(0), want: nil, expectOK: true, class: "complete s=0"})
 			s1, s2 := rng.Big(wc.n), rng.Big(wc.n)
@@ -601,6 +608,26 @@ func runC16(args []string) int {
 			ejobs = append(ejobs, mk("DoubleBaseScalarMul", "random", P, Q, s1, s2, wx, wy, true))
 			ejobs = append(ejobs, mk("ScalarMul", "wrong-result", P, Q, s1, nil, x2, y2, false))
 		}
+		{
+			// scalars are field elements: also those with the top bit of the field-width decomposition set
+			top := new(big.Int).Lsh(big.NewInt(1), uint(q.BitLen()-1))
+			big1 := new(big.Int).Add(top, rng.Big(new(big.Int).Sub(q, top)))
+			small := rng.Big(params.Order)
+			for _, pr := range [][2]*big.Int{{big1, small}, {small, big1}, {big1, new(big.Int).Sub(q, big.NewInt(1))}} {
+				x1, y1 := er.mul(px, py, pr[0])
+				x2, y2 := er.mul(qx, qy, pr[1])
+				wx, wy := er.add(x1, y1, x2, y2)
+				cl := "s1 top bit"
+				if pr[0] == small {
+					cl = "s2 top bit"
+				} else if pr[1] != small {
+					cl = "both top bits"
+				}
+				ejobs = append(ejobs, mk("DoubleBaseScalarMul", cl, P, Q, pr[0], pr[1], wx, wy, true))
+			}
+			sx, sy := er.mul(px, py, big1)
+			ejobs = append(ejobs, mk("ScalarMul", "s top bit", P, Q, big1, nil, sx, sy, true))
+		}
 		ejobs = append(ejobs, mk("AssertIsOnCurve", "off-curve", [2]*big.Int{px, new(big.Int).Mod(new(big.Int).Add(py, big.NewInt(1)), q)}, Q, nil, nil, px, py, false))
 		res := make([]string, len(ejobs))
 		var wg2 sync.WaitGroup
@@ -648,6 +675,73 @@ func runC16(args []string) int {
 			}
 		}
 	}
+	// ---- dishonest prover on the native twisted Edwards ScalarMul (fake GLV): forged decomposition and result hints
+	{
+		id := tedid.BN254
+		params, _ := twistededwards.GetCurveParams(id)
+		q, _ := twistededwards.GetSnarkField(id)
+		er := &edRef{p: q, a: params.A, d: params.D}
+		px, py := er.mul(params.Base[0], params.Base[1], big.NewInt(12345))
+		sc := rng.Big(params.Order)
+		var hgID, smID solver.HintID
+		var hgFn, smFn solver.Hint
+		for _, h := range twistededwards.GetHints() {
+			n := solver.GetHintName(h)
+			if strings.HasSuffix(n, ".halfGCD") {
+				hgID, hgFn = solver.GetHintID(h), h
+			}
+			if strings.HasSuffix(n, ".scalarMulHint") {
+				smID, smFn = solver.GetHintID(h), h
+			}
+		}
+		if hgFn == nil || smFn == nil {
+			rep.Fail("harness:hints", "twisted Edwards hints not found", nil)
+		} else {
+			type forgeEd struct {
+				name       string
+				s1, s2, bit *big.Int
+				qx, qy     *big.Int
+			}
+			negx := new(big.Int).Mod(new(big.Int).Neg(px), q)
+			forges := []forgeEd{
+				{"zero decomposition (s1 = s2 = 0), arbitrary result", big.NewInt(0), big.NewInt(0), big.NewInt(0), big.NewInt(5), big.NewInt(7)},
+				{"decomposition (1, 1) with a free quotient, result -P", big.NewInt(1), big.NewInt(1), big.NewInt(0), negx, py},
+			}
+			for _, fg := range forges {
+				fg := fg
+				tmpl := &edCircuit{op: "ScalarMul", id: id}
+				asg := &edCircuit{P: twistededwards.Point{X: px, Y: py}, Q: twistededwards.Point{X: px, Y: py}, S1: sc, S2: 1, R: twistededwards.Point{X: fg.qx, Y: fg.qy}}
+				forgedHG := func(m *big.Int, in, out []*big.Int) error {
+					// s1 + s2*s = k*Order (mod the native field): k is free
+					out[0].Set(fg.s1)
+					out[1].Set(fg.s2)
+					out[2].Set(fg.bit)
+					k := new(big.Int).Mul(fg.s2, in[0])
+					k.Add(k, fg.s1).Mod(k, m)
+					k.Mul(k, new(big.Int).ModInverse(in[1], m)).Mod(k, m)
+					out[3].Set(k)
+					return nil
+				}
+				forgedSM := func(m *big.Int, in, out []*big.Int) error {
+					out[0].Set(fg.qx)
+					out[1].Set(fg.qy)
+					return nil
+				}
+				for _, t := range []Target{{"bn254", q, true}, {"bn254", q, false}} {
+					cls, msg := solveOn(t, tmpl, asg, solver.OverrideHint(hgID, forgedHG), solver.OverrideHint(smID, forgedSM))
+					rep.Eval(fmt.Sprintf("ed-forge|%s|%s", fg.name, t), true)
+					rep.Count("ed-forge:" + cls)
+					desc := c16Desc{Curve: "edwards/bn254", Op: "ScalarMul", Class: "forged hints: " + fg.name, Detail: t.String() + " " + msg}
+					if cls == "ok" {
+						rep.Fail("c16:forged-accepted:edwards:scalarmul:"+strings.SplitN(fg.name, " ", 2)[0], "native twisted Edwards ScalarMul accepts a result that is not [s]P with forged hints: "+fg.name, desc)
+					}
+					if cls == "panic" {
+						rep.Fail("c16:panic:edwards:forged", msg, desc)
+					}
+				}
+			}
+		}
+	}
 	// ---- ECDSA
 	ecdsaRun := func(name string, wc *wcurve, run func(r, s, m *big.Int, pub *wpt) string) {
 		d := new(big.Int).Add(rng.Big(new(big.Int).Sub(wc.n, big.NewInt(2))), big.NewInt(1))
@@ -666,6 +760,16 @@ func runC16(args []string) int {
 				rep.Fail("harness:ecdsa-reference", "reference signature rejected by crypto/ecdsa", nil)
 			}
 		}
+		// a valid signature whose two partial results are the same point: m = r d, s = 2 r d / k
+		mEq := new(big.Int).Mod(new(big.Int).Mul(r, d), wc.n)
+		sEq := new(big.Int).Mul(mEq, big.NewInt(2))
+		sEq.Mul(sEq, new(big.Int).ModInverse(k, wc.n)).Mod(sEq, wc.n)
+		if name == "P-256" {
+			pk := ecdsa.PublicKey{Curve: elliptic.P256(), X: pub.x, Y: pub.y}
+			if !ecdsa.Verify(&pk, mEq.FillBytes(make([]byte, 32)), r, sEq) {
+				rep.Fail("harness:ecdsa-reference", "reference signature (m = r d) rejected by crypto/ecdsa", nil)
+			}
+		}
 		one := big.NewInt(1)
 		variants := []struct {
 			name       string
@@ -678,6 +782,7 @@ func runC16(args []string) int {
 			{"r+1", new(big.Int).Mod(new(big.Int).Add(r, one), wc.n), s, m, pub, false},
 			{"s+1", r, new(big.Int).Mod(new(big.Int).Add(s, one), wc.n), m, pub, false},
 			{"-s (malleable twin, valid)", r, new(big.Int).Sub(wc.n, s), m, pub, true},
+			{"valid, m = r d (the two partial results [m/s]G and [r/s]Q coincide)", r, sEq, mEq, pub, true},
 			{"other key", r, s, m, wc.mul(wc.g, new(big.Int).Add(d, one)), false},
 			{"s=0", r, big.NewInt(0), m, pub, false},
 			{"r=0", big.NewInt(0), s, m, pub, false},
